@@ -10,6 +10,7 @@ package main
 import (
 	"bytes"
 	"encoding/json"
+	"sync"
 	"unicode"
 
 	"github.com/ozontech/file.d/decoder"
@@ -20,7 +21,10 @@ import (
 
 func isLetter(r rune) bool { return unicode.IsLetter(r) }
 
-func execJSONCutMany(cs hx.Sx) hx.Sx {
+func execJSONCutMany(cs hx.Sx) hx.Sx { return execJSONCutManyWith(cs, nil) }
+
+// shared != nil: the cut runs on that decoder (built from the same limits), possibly used by other goroutines at the same time
+func execJSONCutManyWith(cs hx.Sx, shared decoder.Decoder) hx.Sx {
 	it := hx.Items(cs)
 	data := hx.Bytes(it[len(it)-1])
 	limits := map[string]any{}
@@ -33,7 +37,10 @@ func execJSONCutMany(cs hx.Sx) hx.Sx {
 		groups = append(groups, hx.L(hx.I(index), hx.I(strLen), hx.Bool(valid), hx.Bool(exists), hx.Bool(isStr)))
 	}
 	vin := json.Valid(data)
-	d, err := decoder.NewJsonDecoder(decoder.Params{"json_max_fields_size": limits})
+	d, err := shared, error(nil)
+	if d == nil {
+		d, err = decoder.NewJsonDecoder(decoder.Params{"json_max_fields_size": limits})
+	}
 	if err != nil {
 		for i := range groups {
 			groups[i] = hx.L(hx.I(0), hx.I(0), hx.I(0), hx.I(0), hx.I(0))
@@ -119,6 +126,56 @@ func genJSONCut(c *hmain.Ctx) {
 			ps = append(ps, hx.L(hx.S("o.g"), hx.I(0)))
 		}
 		c.Do("json-cut-multi", 8, hx.L(append(ps, hx.S(doc))...), true)
+	}
+	// ONE decoder used by several goroutines at once (a pipeline has one decoder and Pipeline.In is called from every
+	// input worker): every line must be cut exactly as it is when the decoder is used alone.  Each goroutine repeats its
+	// lines; the recorded observable is the first one that differs from the line's first result, else that first result.
+	for round := 0; round < 4*c.Scale; round++ {
+		la, lb, lf := 1+r.Intn(10), 1+r.Intn(10), 1+r.Intn(6)
+		limits := map[string]any{"a": la, "b": lb, "o.f": lf}
+		d, err := decoder.NewJsonDecoder(decoder.Params{"json_max_fields_size": limits})
+		if err != nil {
+			continue
+		}
+		const G, perG = 6, 6
+		cases := make([][]hx.Sx, G)
+		for g := 0; g < G; g++ {
+			for i := 0; i < perG; i++ {
+				a, b2, f := plain(0, 24), plain(0, 24), plain(0, 12)
+				doc := `{"pad":` + q(plain(0, 30)) + `,"a":` + q(a) + `,"o":{"f":` + q(f) + `,"g":7},"b":` + q(b2) + `}`
+				cases[g] = append(cases[g], hx.L(hx.L(hx.S("a"), hx.I(la)), hx.L(hx.S("b"), hx.I(lb)), hx.L(hx.S("o.f"), hx.I(lf)), hx.S(doc)))
+			}
+		}
+		obs := make([][]hx.Sx, G)
+		var wg sync.WaitGroup
+		for g := 0; g < G; g++ {
+			obs[g] = make([]hx.Sx, perG)
+			wg.Add(1)
+			go func(g int) {
+				defer wg.Done()
+				first := make([]string, perG)
+				differs := make([]bool, perG)
+				for it := 0; it < 150; it++ {
+					for i, cs := range cases[g] {
+						if differs[i] {
+							continue
+						}
+						o := execJSONCutManyWith(cs, d)
+						if it == 0 {
+							first[i], obs[g][i] = hx.String(o), o
+						} else if hx.String(o) != first[i] {
+							differs[i], obs[g][i] = true, o
+						}
+					}
+				}
+			}(g)
+		}
+		wg.Wait()
+		for g := 0; g < G; g++ {
+			for i, cs := range cases[g] {
+				c.W.Case("json-cut-shared-decoder", 8, cs, obs[g][i], true)
+			}
+		}
 	}
 	// escapes anywhere in the limited string (known finding: positions come from the unescaped length)
 	for i := 0; i < 1000*c.Scale; i++ {
